@@ -147,7 +147,7 @@ theorem holeFree_of_noRef (Γ : Env) (t : Ty) (e : Exp) (hr : e.hasRef = false) 
   simp [refHoleFree, refType_of_noRef Γ e hr]
 
 /-- the sample store conforms to the sample environment -/
-private theorem storeOk0 : StoreOk (Γ0 .single) ρ0 := by
+theorem sample_store_ok : StoreOk (Γ0 .single) ρ0 := by
   constructor
   · intro id t h
     simp only [List.lookup] at h
@@ -172,7 +172,7 @@ example :
     let e : Exp := .map true (.cons ka (.int 3) (.cons kb (.self kx [kb]) (.cons kx (.call cP [ko]) .nil)))
     StoreOk (Γ0 .single) ρ0 ∧ t.wf = true ∧ e.wf = true ∧
       validExp (Γ0 .single) t e = true ∧ holeFree (Γ0 .single) t e = true :=
-  ⟨storeOk0, by decide, by decide, by decide, by decide⟩
+  ⟨sample_store_ok, by decide, by decide, by decide, by decide⟩
 
 /-- F9 at binding level (negative witness for the full soundness statement):
 `x = self.m` with `self.m : map<string>` is accepted for `map<file> x`; the
